@@ -389,11 +389,7 @@ def run(prop: str, tier: str) -> int:
         for i, ev in results:
             f.write(json.dumps({"events": ev}) + "\n")
     n = len(results)
-    r = tlc.run("Session", "SPECIFICATION Spec\nCHECK_DEADLOCK FALSE\n", env={"TRACE_FILE": path}, timeout=3000, heap="12g")
-    v = r.verdicts()
-    judged = [t for t, cl in v.items() if "ACCEPT" in cl or "REJECT" in cl]
-    if not r.completed or len(judged) != n:
-        raise MachineryError(f"Session: {len(judged)}/{n} judged\n" + r.diagnosis())
+    v, r = tlc.run_trace("Session", "SPECIFICATION Spec\nCHECK_DEADLOCK FALSE\n", path, n, max_lines=200000, max_bytes=40_000_000)
     res.add("trace_states", r.distinct)
     rejected = [(t, cl) for t, cl in v.items() if "REJECT" in cl]
     timeouts = [t for t, cl in rejected if any(c.startswith("timeout") for c in cl)]
